@@ -597,3 +597,24 @@ def selector_rules(prog, chk, pid):
     chk.require(okr, P("selected-passes-both-tests"), fi.qualname, "return encryptor only if isinstance(...) and (no filter or filter(encryptor))", where,
                 "the first encryptor that is of the required class AND passes the filter is chosen; later candidates are still examined when an earlier one fails the filter",
                 "an encryptor can be returned without passing the class test and the filter")
+    # which encryptor opens which block is decided by isinstance(encryptor, REQUIRED_ENCRYPTOR_CLS) alone: the required classes of the block kinds must not
+    # share a concrete encryptor class, or a decryptor of one kind is picked for a block of another kind (and fails, or wraps under the wrong key)
+    import ast as _ast
+
+    m_ = prog.module(BEC2)
+    blocks = {}
+    for c_ in prog.classes.values():
+        if c_.module is m_ and any(getattr(b_, "name", None) == "AuthBlock" for b_ in c_.mro()[1:]) and "REQUIRED_ENCRYPTOR_CLS" in c_.attrs:
+            t_ = prog.resolve_expr_static(m_, c_.attrs["REQUIRED_ENCRYPTOR_CLS"])
+            if t_ is not None and hasattr(t_, "mro"):
+                blocks[c_.name] = t_
+    enc_base = prog.classes.get(BEC2 + ".Encryptor")
+    concrete = [c_ for c_ in prog.classes.values() if enc_base is not None and enc_base in c_.mro() and c_ is not enc_base]
+    clash = []
+    for c_ in concrete:
+        opens = sorted(b_ for b_, req in blocks.items() if req in c_.mro())
+        if len(opens) > 1:
+            clash.append("%s is accepted for %s" % (c_.name, " and ".join(opens)))
+    chk.require(len(blocks) >= 3 and not clash, P("encryptor-kinds-disjoint"), BEC2 + ".AuthBlock", "REQUIRED_ENCRYPTOR_CLS of %s" % ", ".join(sorted(blocks)), where,
+                "no encryptor class is an instance of the required class of two block kinds (%d encryptor classes, %d block kinds)" % (len(concrete), len(blocks)),
+                "; ".join(clash) or "fewer than three block kinds with a required encryptor class were found")
